@@ -88,6 +88,17 @@ impl Model<'_> {
             );
             let current_inf_norm = current_values.iter().map(|v| v.abs()).fold(0.0, libm::fmax);
             let step_inf_norm = d.iter().map(|d| d.abs()).reduce(libm::fmax).unwrap_or(0.0);
+            #[cfg(feature = "verif-hooks")]
+            if crate::verif_hooks::trace_enabled() {
+                crate::verif_hooks::trace_push(crate::verif_hooks::TraceEvent::Step {
+                    iteration: this_iteration,
+                    d: d.iter().copied().collect(),
+                    current_inf_norm,
+                    step_inf_norm,
+                    step_threshold: config.step_tolerance
+                        * (current_inf_norm + config.step_tolerance),
+                });
+            }
             current_values
                 .iter_mut()
                 .zip(d.iter())
@@ -100,16 +111,6 @@ impl Model<'_> {
                 return Err(NonLinearSystemError::DidNotConverge);
             }
             let step_threshold = config.step_tolerance * (current_inf_norm + config.step_tolerance);
-            #[cfg(feature = "verif-hooks")]
-            if crate::verif_hooks::trace_enabled() {
-                crate::verif_hooks::trace_push(crate::verif_hooks::TraceEvent::Step {
-                    iteration: this_iteration,
-                    d: d.iter().copied().collect(),
-                    current_inf_norm,
-                    step_inf_norm,
-                    step_threshold,
-                });
-            }
 
             // Convergence check: if `d` is small enough,
             // then the system is at a local minimum. It might be inconsistent, and therefore
